@@ -88,7 +88,8 @@ def write_evidence(mod, tier, seed, res, wall, n_new, known_hit, stale, extra):
         'wall_s': round(wall, 2),
         'violations': int(n_new),
     }
-    d = os.path.join(common.VERIF, 'evidence')
+    # the mutation audit redirects evidence so that files written against a modified tree never land in evidence/
+    d = os.environ.get('VERIF_EVIDENCE_DIR') or os.path.join(common.VERIF, 'evidence')
     os.makedirs(d, exist_ok=True)
     path = os.path.join(d, pid + '.json')
     tmp = path + '.tmp'
@@ -113,12 +114,32 @@ def write_replay(pid, key, what, point):
     return path
 
 
+def _tuplify(o):
+    if isinstance(o, list):
+        return tuple(_tuplify(x) for x in o)
+    return o
+
+
+def replay_point(mod, point, res, tier, want=None):
+    """Re-execute one violation point; when it does not reproduce alone (its outcome depended on what the unit did
+    before it) re-run the whole unit it was found in, in this fresh process."""
+    mod.replay(point, res)
+    if want is not None and want in res.violations:
+        return
+    unit = point.get('_unit') if isinstance(point, dict) else None
+    if unit is not None and hasattr(mod, 'run_unit'):
+        r = mod.run_unit(_tuplify(unit), tier)
+        res.merge(r)
+        if want is None or want in r.violations:
+            res.notes.append('state-dependent: reproduces by re-running its unit %r' % (unit,))
+
+
 def do_replay(mod, path):
     with open(path) as f:
         body = json.load(f)
     common.prepare()
     res = Result()
-    mod.replay(body['point'], res)
+    replay_point(mod, body['point'], res, os.environ.get('VERIF_TIER', 'quick'), want=body['key'])
     keys = sorted(res.violations)
     print("replay of %s: expected key %s" % (path, body['key']))
     for k in keys:
@@ -172,7 +193,7 @@ def main(argv=None):
         if todo:
             def _rep(unit, tier_):
                 r = Result()
-                mod.replay(unit[1], r)
+                replay_point(mod, unit[1], r, tier_, want=unit[0])
                 r.notes = [unit[0]]
                 return r
             for rank, key, what, point, count in todo:
